@@ -372,6 +372,9 @@ impl Prop for C09 {
     fn assumptions(&self) -> Vec<String> {
         vec!["relations to arrays/groups/ports, Align::Center/Ports and relative arrays are documented as unimplemented and excluded".into(), "alignment side is orthogonal to the placement side".into()]
     }
+    fn miri_gen(&self) -> Option<&'static str> {
+        Some("chains")
+    }
     fn plan(&self, tier: Tier) -> Vec<GenSpec> {
         vec![
             GenSpec::random("permuted", tier.pick(3_000, 120_000)),
